@@ -14,7 +14,7 @@ RULE = ('Hypothesis: front-end (sync TCP/serial/UDP, asyncio TCP/UDP, Twisted TC
         'fc or fc|0x80) per request to a hosted unit (any unit in single mode); none for broadcast-enabled unit 0, absent '
         'units under ignore_missing_slaves and listen-only; absent unit otherwise: nothing or one gateway exception 0x0A/0x0B '
         'with the request ids. Non-trivial: >=2 requests in one read or a request for which silence is expected; distinct by SHA-1.')
-ASSUMPTIONS = ['fake transports record one entry per send()/write()/sendto() call = one response frame',
+ASSUMPTIONS = ['every send()/write()/sendto() call must carry one or more WHOLE response frames (a front-end may coalesce pipelined responses)',
                'Twisted reactor semantics as modelled in vlib/frontends.py; Twisted front-ends have no broadcast option',
                'binary-framing histories containing a delimiter byte inside a frame are excluded and counted (KF-BINARY-FRAMER-DELIMITER-BYTES is judged by C03/C06)']
 BUDGET = {'quick': 5000, 'thorough': 8000}
@@ -180,7 +180,7 @@ def run_case(case):
     parsed = []
     for s in sent:
         try:
-            parsed.append(refframe.parse_one(framing, s))
+            parsed.extend(refframe.parse_many(framing, s))       # one write may carry several whole response frames
         except refframe.FrameError as e:
             discs.append(Disc('not-a-frame', '%s/%s: bytes written that are not one response frame (%s): %s' % (fe, framing, e, s.hex()[:80])))
             parsed = None
